@@ -67,6 +67,25 @@ CLAIMED = {
             "In adapters and the path layer (sync+async) the Err of every Result<_, VfsError|io::Error> may only propagate, be preserved, or be matched with all non-escape arms leading to error returns; discarding combinators, unused results and Err edges reaching a success return are violations unless the error stems from pure path computation or a listed escape (NotSupported fast paths, DirectoryExists in create_dir_all, FileNotFound in overlay exists). Covers every fault position k at once.",
             "Does not decide whether an alternative route reproduces the full effect, nor partial effects left behind by a failed composite; panicking consumers are C13's concern.", "DESIGN.md §4 C20"),
 }
+# additions after the second seeding wave (DESIGN.md §4b); appended to the level text
+ADDENDA = {
+    "C01": " Evaluated on the sync and the async world (A/ obligations). Also: the stream route of copy/move opens the source before it creates the destination; optional native two-path operations of the in-memory backend must establish destination-parent-is-a-directory themselves; PhysicalFS::exists never fails.",
+    "C02": " Also: PhysicalFS::exists has no Err return (the map lookup cannot fail), the in-memory read/write handles satisfy the cursor rules of C14, the stream copy route opens the source before creating the destination.",
+    "C03": " Evaluated on both worlds. Also: merged-listing rules (what a listing hides is exactly what was removed), source-before-destination in the stream copy route, two-path row of Table M (whole-map replacement counts as insertion).",
+    "C04": " Evaluated on both worlds (async writer publication incl. the flush clause, async copy-up direction, async session start/length/routing).",
+    "C05": " Evaluated on both worlds; native two-path operations of the in-memory backends must place entries below a directory.",
+    "C06": " join hands its argument to the shared normaliser unchanged (no trimming / prefix stripping in the wrapper), both path types.",
+    "C07": " Shares C06's join pass-through rule (listed children never pass the join wrapper).",
+    "C08": " Also: a copy-up is an independent copy — (Async)PhysicalFS::copy_file performs exactly fs::copy (no hard link / rename).",
+    "C09": " Evaluated on both worlds (Table U, resolver, listing, materialisation, marker protocol of AsyncOverlayFS).",
+    "C10": " Evaluated on both worlds; remove_dir_all dispatches children by their own type and removes the directory last.",
+    "C11": " Evaluated on both worlds; source opened before destination created in the stream route; two-path row of Table M.",
+    "C12": " with_path stores its argument unconditionally (mutate-self and struct-update shapes).",
+    "C16": " Evaluated on MemoryFS (std RwLock) and AsyncMemoryFS (async_std RwLock: guard holder found by type, regions across .await). Also: a removal/insertion is decided inside its own critical section (lookup under the same guard or own outcome checked); publication happens before flush/drop returns.",
+    "C17": " Evaluated on both worlds for backends and adapters. Also: the DirectoryExists tolerance is unconditional (no Err return reachable from that arm before the next attempt); PhysicalFS's occupant probe runs after the failed mkdir.",
+    "C19": " Evaluated on both worlds. Also: exact round-trip shape (stored = argument, reported = field, up to Some/Into/Clone — no filter or sentinel); an overlay setter that copies up must carry the other timestamps over.",
+    "C20": " Also: the kind create_dir_all tolerates (DirectoryExists) is built only under a positive directory test of the occupant (overlay, memory, physical; both worlds); stream typestate of the async walk (failed future not kept, error item yielded once).",
+}
 NA_REASON = "check not implemented yet (build in progress); design in DESIGN.md"
 
 def main():
@@ -76,6 +95,7 @@ def main():
         pid = p["id"]
         if pid in CLAIMED:
             tech, text, note, ref = CLAIMED[pid]
+            text = text + ADDENDA.get(pid, "")
             checks.append({
                 "property_id": pid,
                 "quick_cmd": "python3 /verif/check.py %s --tier quick" % pid,
